@@ -193,7 +193,7 @@ def _hyp_shard(arg):
         S = draw(st.lists(logu(1e-3, 1e3), min_size=m, max_size=m))
         h = draw(st.lists(logu(1e-3, 1e3), min_size=m, max_size=m))
         V = draw(st.lists(logu(1e-3, 1e3), min_size=n, max_size=n))
-        emode = draw(st.sampled_from(["equal", "small", "large", "cap", "cap"]))
+        emode = draw(st.sampled_from(["equal", "small", "large", "cap", "cap", "ramp"]))
         if emode == "equal":
             e0 = draw(st.floats(-1e3, 1e3))
             E = [e0] * n
@@ -201,6 +201,14 @@ def _hyp_shard(arg):
             E = draw(st.lists(st.floats(-3, 3), min_size=n, max_size=n))
         elif emode == "large":
             E = draw(st.lists(st.floats(-150, 150), min_size=n, max_size=n))
+        elif emode == "ramp":
+            # a staircase: consecutive cells differ by less than the cap, the whole range is thousands of kJ/mol
+            step = draw(st.sampled_from([120.0, 300.0, 450.0, -400.0]))
+            base = draw(st.floats(-1e4, 1e4))
+            order = list(draw(st.permutations(range(n)))) if shape != "path" else list(perm)
+            E = [0.0] * n
+            for k, cell in enumerate(order):
+                E[cell] = base + k * step
         else:
             E = draw(st.lists(st.floats(-150, 150), min_size=n, max_size=n))
             if pairs:
